@@ -17,6 +17,7 @@ import (
 	"io"
 	"net/http"
 	"net/http/httptest"
+	"net/netip"
 	"os"
 	"time"
 
@@ -33,6 +34,39 @@ type Scripted struct {
 	Sub  struct {
 		X int `json:"x"`
 	} `json:"sub"`
+	// fields whose types decode themselves (json.Unmarshaler / encoding.TextUnmarshaler): their failures are errors of
+	// their own kinds, neither *json.SyntaxError nor *json.UnmarshalTypeError
+	When *time.Time `json:"when"`
+	At   time.Time  `json:"at"`
+	Addr netip.Addr `json:"addr"`
+	Odd  Odd        `json:"odd"`
+	Txt  OddText    `json:"txt"`
+}
+
+// Odd rejects some well-formed JSON values with an error type of its own.
+type Odd struct{ V string }
+
+type oddError struct{ what string }
+
+func (e *oddError) Error() string { return "odd: " + e.what }
+
+func (o *Odd) UnmarshalJSON(b []byte) error {
+	if bytes.Contains(b, []byte("bad")) {
+		return &oddError{string(b)}
+	}
+	o.V = string(b)
+	return nil
+}
+
+// OddText rejects some strings through encoding.TextUnmarshaler.
+type OddText string
+
+func (o *OddText) UnmarshalText(b []byte) error {
+	if len(b) > 0 && b[0] == '!' {
+		return errors.New("text starts with !")
+	}
+	*o = OddText(b)
+	return nil
 }
 
 func scriptedErr(mode string, ctx context.Context) error {
